@@ -229,6 +229,16 @@ def run_unit(unit, work, tier='quick'):
                 raise Undecided('goto-instrument --unwind failed: ' + (err or out)[-600:])
             res['bounded'] = 'BOUNDED: every loop cut after %d iteration(s) (partial loops); only obligations matching %r are considered' % (unit['bounded_partial'] - 1, unit.get('only', '.*'))
             nocontract = []
+        if unit.get('havoc_loops'):
+            # frame-only units for functions too large for loop contracts: every loop is replaced by its standard
+            # over-approximation (havoc of everything the loop may write, one arbitrary iteration, back edge cut).
+            # Sound for "no write outside the frame" (every write of the real loop body is still checked, from a state
+            # that covers every iteration); nothing else is concluded from such a unit.
+            rc, out, err, _ = sh(['goto-instrument', '--havoc-loops', os.path.join(d, 'a.gb'), os.path.join(d, 'a.gb')], log=log, timeout=300)
+            if rc != 0:
+                raise Undecided('goto-instrument --havoc-loops failed: ' + (err or out)[-600:])
+            res['abstraction'] = 'loops over-approximated by goto-instrument --havoc-loops; only obligations matching %r are considered' % unit.get('only', '.*')
+            nocontract = []
         gi = ['goto-instrument', '--no-malloc-may-fail', '--dfcc', harness]
         gi += ['--enforce-contract-rec' if unit.get('rec') else '--enforce-contract',
                '%s/%s__contract' % (unit['enforce'], unit['enforce'])]
@@ -240,7 +250,7 @@ def run_unit(unit, work, tier='quick'):
         if rc != 0:
             raise Undecided('goto-instrument failed: ' + (err or out)[-1200:])
         timeout = unit.get('timeout_thorough', unit.get('timeout', 300)) if tier == 'thorough' else unit.get('timeout', 300)
-        base = ['cbmc', os.path.join(d, 'b.gb')] + CBMC_FLAGS + unit.get('checks', []) + ['--json-ui', '--trace']
+        base = ['cbmc', os.path.join(d, 'b.gb')] + (['--no-malloc-may-fail', '--no-standard-checks'] if unit.get('no_default_checks') else CBMC_FLAGS) + unit.get('checks', []) + ['--json-ui', '--trace']
         if nocontract:
             # loops without contract only exist in units that declare an unwinding bound (bounded stand-in)
             if 'unwind_complete' in unit:
@@ -293,6 +303,7 @@ def parse_cbmc(out, res, unit):
     res['obligations'] = len(results)
     exp_fail = [re.compile(x) for x in unit.get('expect_fail', [])]
     only = re.compile(unit['only']) if unit.get('only') else None
+    loopobl_all = len([1 for r in results if 'loop invariant' in r.get('description', '') or 'loop_invariant' in r.get('property', '') or 'decreases' in r.get('description', '')])
     if only is not None:
         results = [r for r in results if only.search(r.get('property', '') + ' ' + r.get('description', '')) or any(p.search(r.get('description', '')) for p in exp_fail)]
     fails = []
@@ -319,6 +330,9 @@ def parse_cbmc(out, res, unit):
     res['discharged'] = ok
     res['loop_obligations'] = loopobl
     res['reachability_guards'] = len(reach_hit)
+    if only is not None:
+        loopobl = loopobl_all
+        res['loop_obligations'] = loopobl
     if unit.get('loops') and loopobl == 0:
         raise Undecided('loop contracts were spliced but no loop obligations were generated')
     if exp_fail and not reach_hit:
